@@ -33,6 +33,7 @@ theorem compare_array_step (g f lh rh : Nat) (left right : Bytes) (kl kr : Nat)
   have h0 : ((0 : Nat) : Int) = 0 := rfl
   rw [Tr.compare_array]
   simp only [hdrLen_cast, ← h4, Rs.mul_usize_nat 4 (hdrLen lh) (by omega), Rs.mul_usize_nat 4 (hdrLen rh) (by omega),
+    Rs.mul_usize_nat (hdrLen lh) 4 (by omega), Rs.mul_usize_nat (hdrLen rh) 4 (by omega), Nat.mul_comm (hdrLen lh) 4, Nat.mul_comm (hdrLen rh) 4,
     Ctl.ofRes_ok', Ctl.val_bind', min_cast, Rs.forRange_zero, compare_natCast]
   rw [← h0]
   have := ca_run (Tr.compare_scalar g) left right (compare (hdrLen lh) (hdrLen rh)) hl hr
